@@ -598,6 +598,10 @@ REFINED = ["gcd_ops.rs dispatch (gcd / gcd_ext over inline/heap operands) and IB
            "gcd::gcd_in_place = lehmer::gcd_in_place: the whole multi-word loop (highest_word_normalized / highest_dword_normalized alignment, lehmer_guess / lehmer_guess_dword, Euclidean fallback, lehmer_step, final word / dword gcd) returns and returns the gcd (lehmer_gcd_correct, gcd_spec)",
            "lehmer::gcd_ext_in_place: the whole multi-word loop with cofactor tracking (t0 += q*t1 on the Euclidean fallback, lehmer_ext_step, swapped flag as sign, final div_by_word + single-word gcd_ext, |b| = |cx|*t0 + |cy|*t1) returns and meets g = gcd, lhs | g - rhs*b (lehmer_gcd_ext_correct, gcd_ext_spec)",
            "lehmer::gcd_ext_in_place buffer-length claims: t1*x + t0*y = lhs through every Euclidean / Lehmer step for WHATEVER quotients the guess commits (only det = 1 is used), hence t0, t1 <= lhs; a committed Lehmer step leaves both combined values strictly positive, so y = 0 arises only from a Euclidean step; cofactor bounds |s|*g <= b, |t|*g <= a of the primitive gcd_ext; the returned |b| satisfies |b|*g <= lhs resp. |b| <= lhs at EVERY exit — the lhs_len(+1)-word buffers suffice and the debug_assert_zero! carries are zero (gcd_ext_cofactors_fit_partial, gcd_ext_prim_cofactor_bounds, gcd_ext_b_fits_partial, gcd_ext_b_fits)",
+           "lehmer::gcd_ext_in_place main loop, EVERY iteration (round 6): lehmerExtStep = one pass through the while body; the executed loop is its iteration and returns the state at the head of the first iteration at which y has at most one word (gcd_ext_loop_is_iteration); at the head of every iteration reached from (lhs, rhs, 0, 1), rhs <= lhs: t1*x + t0*y = lhs, y <= x, and while y > 0 both t0, t1 < 2^(W*lhs_len) — the operands and results of every lehmer_ext_step / add_signed_mul call fit the reserved words (gcd_ext_every_iteration_fits)",
+           "lehmer::gcd_ext_in_place Euclidean fallback, EVERY iteration (round 6): q = x / y >= 1, t1 >= 1 (the coefficient never vanishes), t0 + q*t1 <= lhs < 2^(W*lhs_len), and q.len() + t1_len <= lhs_len + 1 — the slice t0[..qt1_len] handed to mul::add_signed_mul lies inside the reserved lhs_len + 1 words and the carry store t0[qt1_len] is in range (gcd_ext_euclid_slice_fits); with q_top > 0 (quotient of q_lo.len() + 1 words) q_lo.len() + t1_len <= lhs_len, so add_mul_word_in_place gets exactly t1_len destination words (gcd_ext_euclid_qtop_slice_fits)",
+           "lehmer::lehmer_step zip loop at the word level (round 6; Model/NT/LehmerStepWords.lean lehmerStepWords: signed double-word accumulations a*x_i - b*y_i + x_carry, d*y_i - c*x_i + y_carry, split_signed_dword, signed carry words): for the committed cofactors (<= SignedWord::MAX), word operands with y not longer than x and signed-word incoming carries no accumulation leaves [-2^(2W-1), 2^(2W-1)), lengths kept, results are words, outgoing carries are signed words, x'[..n] + 2^(W*n)*x_carry = a*x[..n] - b*y, y' + 2^(W*n)*y_carry = d*y - c*x[..n] (lehmer_step_words_spec); not driven (pub(crate) fn) — TIE A instead: both split_signed_dword(...) accumulation expressions regenerated, every other token of lehmer_step pinned, fails closed (lehmer_step_words_regenerated); the x_top fix-up after the loop (pinned as text) is mirrored in Model/NT/LehmerStepFull.lean lehmerStepFull with both debug_assert_eq!s as failures: for operands of equal length, resp. x one word longer, and results with 0 <= a*X - b*Y <= X, 0 <= d*Y - c*X < 2^(W*y.len()), a >= 1, the function returns exactly the two results — y_carry = c*x_top, the fix-up is one word with zero carry, and with no carry left the untouched top word is already right (lehmer_step_full_eqlen, lehmer_step_full_longer); a committed guess supplies all of these value hypotheses except d*Y - c*X < 2^(W*y.len()) (lehmer_step_committed_values)",
+           "lehmer::lehmer_ext_step word loop (round 6; Model/NT/LehmerWords.lean lehmerExtStepWords: zip/take(len) loop, two double-word accumulations a*x_i + b*y_i + carry, split_dword): for word operands and cofactors with a + b, c + d < 2^W no accumulation overflows, lengths kept, words beyond len untouched, carries are words, x'[..len] + 2^(W*len)*x_carry = a*x[..len] + b*y[..len] (lehmer_ext_step_words_spec); the committed cofactors are <= SignedWord::MAX (lehmer_cofactors_le_signed_max: the debug_asserts of lehmer_ext_step hold); inside gcd_ext_in_place at EVERY iteration where the guess commits, for any buffers holding t0, t1 in their first len words: the loop returns a*t0 + b*t1, c*t0 + d*t1 and a non-zero carry word implies len < lhs_len, so t[tmax_len] = carry and the new length tmax_len + 1 stay within lhs_len words (gcd_ext_lehmer_ext_step_words_fit); TIE A: the two split_dword(...) accumulation expressions are regenerated from integer/src/gcd/lehmer.rs and every other token of lehmer_ext_step is pinned, fails closed (lehmer_ext_step_words_regenerated; mutants/C12/m24.diff)",
            "gcd::gcd_ext_word / gcd_ext_dword (coefficient recovery |b| = q*|t| + |s|)", "gcd_ext_large post-processing (one product + exact division)",
            "base ring/gcd.rs unchecked_gcd_ext (Euclid with cofactors)", "base ring/gcd.rs Gcd::gcd + unchecked_gcd (binary gcd with the one-division shortcut; (a|b).trailing_zeros() = min proved)",
            "base ring/gcd.rs two-width unchecked_gcd_ext of u128 (full-width Euclid, half-width loop, recombined cofactors)", "lehmer_guess / lehmer_step cofactor matrix (determinant 1 => gcd preserved; committed cofactors never make a step negative; every iteration decreases x+y)",
@@ -608,12 +612,13 @@ REFINED = ["gcd_ops.rs dispatch (gcd / gcd_ext over inline/heap operands) and IB
            "base ring/root.rs fix_sqrt_error! / fix_cbrt_error! (the correction loops every table/Newton routine ends in): sound for every width and every start value (fix_sqrt_error_sound, fix_cbrt_error_sound)",
            "base ring/root.rs normalized_sqrt_rem / normalized_cbrt_rem of u16, u32, u64 (RSQRT_TAB / RCBRT_TAB lookup, Newton steps in wrapping/checked u16/u32 arithmetic, saturating_mul), u128 normalized_sqrt_rem (Karatsuba step over the u64 routine, operands bit-packed with KBITS = 32, q >= B reduction, wrapping_sub / overflowing_add carries), u128 normalized_cbrt_rem (B = 2^22 cube-root step over the u64 routine: both branches of the high part, div_rem by 3*c1^2, signed remainder, `while r < 0` descent) and the sqrt_rem / cbrt_rem / sqrt / cbrt wrappers (even / multiple-of-3 normalising shift, de-normalisation, remainder recomputation) of u8..u128: mirrored with checked arithmetic, executed by the driver; SOUND on every value of every type u8..u128 — whatever is returned without arithmetic overflow is the floor root and the remainder (prim_sqrt_rem_sound, prim_cbrt_rem_sound incl. u128 since round 5, cbrt_karatsuba_step); u8, u16 and (round 5) u32 also TOTAL and exact on every value: no + - * of the table / Newton stages overflows and every estimate is an under-estimate (prim_root_u8_total, prim_root_u16_total by kernel evaluation of every value; prim_root_u32_total by an interval argument — the cube-root estimate reads only the top 16 bits, in the square root the low 16 bits enter only through b = wmul32_hi(self, r^3) >> 11 (at most two values per top half) and e = self - s^2, and a checker decides a whole operand interval at once; the kernel evaluates it for the 49152 + 57344 normalised top halves); prim_sqrt_u32_exact",
            "TIE A (round 5): RSQRT_TAB, RCBRT_TAB, LOG2_TAB, the table index offsets (- 32, - 8), the under-estimate margins ((s - 1) as u8, s -= 4, r - 10, s -= 10, r - 1) and KBITS of the two u128 steps are regenerated from base/src/ring/root.rs / base/src/math/log.rs on every run (vlib/extract_roottabs.py -> Gen/RootTables.lean); root_tables_regenerated proves the model's tables equal to them and every estimate stage of the model (u16, u32, u64; sqrt and cbrt) equal to the same stage over the regenerated table / offset / margin — a change of a table entry or margin in the source breaks the build of Props/C12 (tables are additionally compared at run time: tab.rsqrt, tab.rcbrt, tab.log2)",
+           "TIE A (round 6): every shift amount, mask width and small multiplier of the two u128 steps (u128::normalized_sqrt_rem: >> u64::BITS, << (KBITS - 1), >> (KBITS + 1), q >> KBITS, q -= 1, << KBITS, << (KBITS + 1), mask KBITS + 1, >> (KBITS - 1), << u64::BITS; u128::normalized_cbrt_rem: leading_zeros() > 0, >> 63, c >>= 1, a >> 3, pow(3), >> 66, << KBITS, >> (2 * KBITS), mask KBITS, 3 * c1.pow(2), << (2 * KBITS), mask 2 * KBITS, (3 * c1) << KBITS, q.pow(2), the descent r += 3 * (c - 1) * c + 1; c -= 1) is regenerated from its own statement (vlib/extract_roottabs.py, evaluated with that function's KBITS; one statement shape each, fails closed); normSqrtU128 / normCbrtU128 / cbrtDownLoop of the model equal the same routines over the regenerated amounts (root_u128_steps_regenerated; mutants/C12/m23.diff)",
            "log_dword / log_word_base / log_large correction loops for any admissible first guess", "UBig::remove (squaring tower up, then down)",
            "IBig::nth_root / sqrt / cbrt sign rules and panics",
            "no_std table estimator log2_fp8 / ceil_log2_fp8 over all u16, the u8 powering cases and the top-16-bit + shift lifting to wider integers (integer-level enclosure theorems by kernel evaluation)"]
-FRONTIER = ["gcd_ext_in_place buffer-length claims, what is left: the word loops inside lehmer_ext_step / add_signed_mul are modelled at value level (their results a*t0 + b*t1, c*t0 + d*t1, t0 + q*t1 are the next coefficients, proved <= lhs; the partial sums inside the in-place loops are not separately bounded) and the claim is proved at the exit of the main loop and for the returned |b|, not restated for every intermediate iteration (the invariant t1*x + t0*y = lhs is inductive, so it holds there too)",
+FRONTIER = ["lehmer_step at the word level: the hypothesis d*Y - c*X < 2^(W*y.len()) of lehmer_step_full_longer (the function's own debug_assert_eq!(y_carry, c * x_top)) is not derived from the guess (needs: both combined values of a committed guess are <= y); the word mirrors of lehmer_step / lehmer_ext_step are not driven (private fns), tied by Tie A and by theorem to the executed value-level loops",
+            "gcd_ext_in_place buffer-length claims, what is left: lehmer_ext_step is mirrored at the word level and proved (round 6); the mirror is NOT executed by the driver (a private fn without a harness entry): it is tied to /repo by Tie A (accumulation expressions regenerated, the rest of the function text pinned, lehmer_ext_step_words_regenerated) and to the executed value-level loop by theorem (its result IS a*t0 + b*t1, c*t0 + d*t1); the word loops of mul::add_signed_mul / add_mul_word_in_place on the Euclidean fallback (t0 += q*t1) stay at value level (they are C01's kernels; proved at every iteration since round 6: the slice t0[..q_lo.len() + t1_len] lies inside the lhs_len + 1 words, t0 + q*t1 <= lhs, t1 >= 1 — gcd_ext_euclid_slice_fits; on the q_top > 0 arm q_lo.len() + t1_len <= lhs_len, the min never cuts the destination below t1_len words — gcd_ext_euclid_qtop_slice_fits; the partial sums of the kernels are not separately bounded)",
             "base ring/root.rs u64 Newton estimate stages (sqrt: three Newton steps on 1/sqrt(n) with s -= 10; cbrt: two steps with r - 1): TOTALITY (no arithmetic overflow, i.e. the estimate is an under-estimate that fits) is proved for u8, u16, u32 (prim_root_u32_total, round 5) but NOT for the two u64 routines (u128 is proved total RELATIVE to them, see the end of this entry): the interval argument used for u32 needs one kernel evaluation per value of the top half (2^32 of them for u64), and a coarser subdivision does not work because the safety margin (10 units in 2^32) is far below what interval arithmetic over a block of operands can resolve — it needs the analytic error recurrence of the Newton steps (quadratic convergence with the truncation errors of each wmul32_hi), which is not done. The routines are mirrored and executed with checked arithmetic (an overflow would print as `panic ArithmeticOverflow` and disagree with the real code), and their answers are proved to be the floor root whenever they answer (prim_sqrt_rem_sound, prim_cbrt_rem_sound, all widths incl. u128). The u128 SQUARE-root step is proved to add no overflow of its own (prim_sqrt_u128_total_of_u64, round 5: u += s1, q*q, s -= 1 stay in range and the remainder carry after the c < 0 repair is never negative), so `sqrt_rem_driver_spec_u64` states sqrt_rem exactly as the driver runs it for the 64-bit word with ONE hypothesis: <u64>::normalized_sqrt_rem answers on normalised operands. Likewise the u128 CUBE-root step (prim_cbrt_u128_total_of_u64, round 5: every checked operation and both `as i128` casts in range, q <= B + 7, the `while r < 0` descent ends within 8 steps on normalised operands): u64::cbrt_rem and u128::cbrt_rem answer everywhere if <u64>::normalized_cbrt_rem answers on normalised operands. What is left as hypothesis is exactly: the two u64 Newton routines (normSqrtU64, normCbrtU64) do not overflow on normalised u64 operands",
-            "the under-estimate margins and KBITS of the u128 steps inside Model/NT/PrimRoot.lean normSqrtU128 / normCbrtU128 (2^31, 2^33, 2^22, 2^44 shifts) are hand-written from KBITS = 32 / 22; the regenerated KBITS values are pinned (root_tables_regenerated) but the derived shift amounts are not regenerated as text",
             "f32 log2 first guesses of ilog: a parameter with the hypothesis the code asserts (base^est <= x)",
             "log2_bounds (std build, libm log2f): no theorem; the harness echoes the implementation's own bounds and the driver decides lb <= log2(x) <= ub exactly (certified interval squaring / exact powering) on every call — bit patterns are NOT compared, so a different valid estimator is accepted",
             "f32 arithmetic of the estimators (x/256, + shift, next_up/next_down, *(1 +- 2^-22)): covered by the per-call enclosure check only"]
@@ -637,6 +642,7 @@ EXPLANATION = ("Lean theorems: gcd dispatch = Nat.gcd with the GcdZeroZero panic
                "coefficients satisfy x = -+t0*rhs, y = +-t1*rhs (mod lhs); Newton nth_root ends at the floor root; Zimmermann's Karatsuba square root "
                "(sqrt_rem, sqrt_rem_42) mirrored with all carries returns root, remainder and remainder carry on every normalised input, so sqrt_rem_large over it "
                "equals sqrt_rem_large over the floor square root; sqrt_rem_large de-normalisation is exact; the primitive table/Newton roots are sound for every width (fix loops; the u128 Karatsuba square-root and B = 2^22 cube-root steps) and, for u8/u16/u32, total (never overflow); their tables and margins are the regenerated ones; "
+               "gcd_ext_in_place buffer claims at EVERY iteration of the main loop (t1*x + t0*y = lhs, coefficients below 2^(W*lhs_len), the Euclidean slice t0[..q.len()+t1_len] inside the buffer, lehmer_ext_step mirrored at the word level: no double-word overflow, non-zero carry only with room left; its accumulations and the u128 root step shift amounts regenerated from the source); "
                "ilog correction loops end at floor(log) for any admissible first guess; remove returns the exact multiplicity. "
                "log2_bounds enclosure is decided exactly per call by certified interval squaring / exact powering in the driver.")
 ASSUMPTIONS = ["mul/div/pow of UBig used inside nth_root, ilog and remove, and div_rem_in_place / sqr inside root::sqrt_rem, are exact (C01, C02)",
@@ -644,7 +650,7 @@ ASSUMPTIONS = ["mul/div/pow of UBig used inside nth_root, ilog and remove, and d
 LEVEL_TEXT = ("Machine-checked Lean 4 theorems over an executable model of gcd/gcd_ext dispatch and Bezout recovery, the Lehmer cofactor "
               "step and the complete multi-word Lehmer loops (gcd and extended gcd, proved to return and to be correct), the Newton nth-root iteration, "
               "Zimmermann's Karatsuba square root sqrt_rem / sqrt_rem_42 mirrored with every carry and proved for all lengths, sqrt_rem_large (de)normalisation, "
-              "the primitive table/Newton roots and wrappers (sound for u8..u128 incl. the u128 cube-root step, total for u8/u16/u32; tables and margins regenerated from the source, Tie A), the ilog correction loops and remove; "
+              "the primitive table/Newton roots and wrappers (sound for u8..u128 incl. the u128 cube-root step, total for u8/u16/u32; tables, margins and every shift amount of the u128 steps regenerated from the source, Tie A), the coefficient-buffer claims of gcd_ext_in_place at every iteration incl. the word loop of lehmer_ext_step (mirrored, accumulations regenerated; not driven: a private fn), the ilog correction loops and remove; "
               "totality (no overflow) of the two u64 Newton routines is mirrored and executed but not proved; the u128 square- and cube-root steps and all wrappers are proved to add no overflow of their own. The model is "
               "tied to /repo on every run by differential execution over structured operands (perfect powers +-1, size-class "
               "boundaries, quotient overflow, the Karatsuba q = B arm, exhaustive u8/u16) and by reading the lookup tables from the source; log2 bounds are echoed from the implementation and their enclosure of the true "
@@ -660,6 +666,6 @@ THEOREMS = ["Dashu.Props.C12." + t for t in ["gcd_prim_spec", "trailing_zeros_or
             "log2_table_sound", "log2_u8_table_sound", "log2_wide_table_sound", "nth_root_zero_asIs_counterexample", "sqrt_rem_asIs_counterexample", "ibig_cbrt_asIs_counterexample",
             "ilog_zero_asIs_counterexample", "gcd_ext_post_precondition_counterexample",
             "zimmermann_step", "sqrt_rem_42_correct", "sqrt_rem_karatsuba_correct", "sqrt_rem_kernel_eq_spec", "sqrt_rem_mirrored_spec", "nth_root_mirrored_eq",
-            "fix_sqrt_error_sound", "fix_cbrt_error_sound", "prim_sqrt_rem_sound", "prim_cbrt_rem_sound", "prim_root_u8_total", "prim_root_u16_total", "prim_exact_of_total", "sqrt_rem_driver_spec", "prim_root_u32_total", "prim_sqrt_u32_exact", "cbrt_karatsuba_step", "root_tables_regenerated", "prim_sqrt_u128_total_of_u64", "sqrt_rem_driver_spec_u64", "prim_cbrt_u128_total_of_u64", "gcd_ext_cofactors_fit_partial", "gcd_ext_prim_cofactor_bounds", "gcd_ext_b_fits_partial", "gcd_ext_b_fits"]]
+            "fix_sqrt_error_sound", "fix_cbrt_error_sound", "prim_sqrt_rem_sound", "prim_cbrt_rem_sound", "prim_root_u8_total", "prim_root_u16_total", "prim_exact_of_total", "sqrt_rem_driver_spec", "prim_root_u32_total", "prim_sqrt_u32_exact", "cbrt_karatsuba_step", "root_tables_regenerated", "root_u128_steps_regenerated", "prim_sqrt_u128_total_of_u64", "sqrt_rem_driver_spec_u64", "prim_cbrt_u128_total_of_u64", "gcd_ext_cofactors_fit_partial", "gcd_ext_prim_cofactor_bounds", "gcd_ext_b_fits_partial", "gcd_ext_b_fits", "gcd_ext_loop_is_iteration", "gcd_ext_every_iteration_fits", "lehmer_ext_step_words_spec", "lehmer_cofactors_le_signed_max", "gcd_ext_lehmer_ext_step_words_fit", "lehmer_ext_step_words_regenerated", "gcd_ext_euclid_slice_fits", "gcd_ext_euclid_qtop_slice_fits", "lehmer_step_words_spec", "lehmer_step_words_regenerated", "lehmer_step_committed_values", "lehmer_step_full_eqlen", "lehmer_step_full_longer"]]
 USES_GEN = True
 READY = True
